@@ -267,6 +267,33 @@ func c13R4(c *engine.Ctx) {
 	}
 }
 
+// cmpSigns: the values s of a three-way comparison result (-1, 0, +1) for which
+// "s op cst" holds.
+func cmpSigns(op token.Token, cst int64) map[int]bool {
+	out := map[int]bool{}
+	for _, s := range []int64{-1, 0, 1} {
+		holds := false
+		switch op {
+		case token.EQL:
+			holds = s == cst
+		case token.NEQ:
+			holds = s != cst
+		case token.GTR:
+			holds = s > cst
+		case token.GEQ:
+			holds = s >= cst
+		case token.LSS:
+			holds = s < cst
+		case token.LEQ:
+			holds = s <= cst
+		}
+		if holds {
+			out[int(s)] = true
+		}
+	}
+	return out
+}
+
 func c13R5(c *engine.Ctx) {
 	fn := c.MustFunc("C13.R5", "crypto", "DecomposePQ")
 	if fn == nil {
@@ -278,79 +305,52 @@ func c13R5(c *engine.Ctx) {
 			continue
 		}
 		n++
+		// Every way of reaching this return — one per incoming edge when the results
+		// are selected by phis, the return itself otherwise — must carry a comparison
+		// of the two returned values that implies first <= second.
+		type way struct {
+			a, b  ssa.Value
+			conds []engine.Guard
+		}
+		var ways []way
 		p0, ok0 := engine.RetVal(r, 0).(*ssa.Phi)
 		p1, ok1 := engine.RetVal(r, 1).(*ssa.Phi)
-		if !ok0 || !ok1 || p0.Block() != p1.Block() {
-			c.Fail("C13.R5", "DecomposePQ/ordered-result", r.Pos(), "results are not selected by a p?q comparison (%s, %s)", engine.Describe(r.Results[0]), engine.Describe(r.Results[1]))
-			continue
+		if ok0 && ok1 && p0.Block() == p1.Block() {
+			for k, pred := range p0.Block().Preds {
+				last := pred.Instrs[len(pred.Instrs)-1]
+				conds := engine.Guards(last)
+				if iff, isIf := last.(*ssa.If); isIf {
+					conds = append(conds, engine.Guard{If: iff, Branch: pred.Succs[0] == p0.Block()})
+				}
+				ways = append(ways, way{p0.Edges[k], p1.Edges[k], conds})
+			}
+		} else {
+			ways = append(ways, way{engine.RetVal(r, 0), engine.RetVal(r, 1), engine.Guards(r)})
 		}
 		okAll := true
 		detail := ""
-		for k, pred := range p0.Block().Preds {
-			a, b := p0.Edges[k], p1.Edges[k]
-			// find the governing comparison for this edge
-			var gd *engine.Guard
-			if iff, ok := pred.Instrs[len(pred.Instrs)-1].(*ssa.If); ok {
-				gd = &engine.Guard{If: iff, Branch: pred.Succs[0] == p0.Block()}
-			} else if len(pred.Preds) == 1 {
-				pp := pred.Preds[0]
-				if iff, ok := pp.Instrs[len(pp.Instrs)-1].(*ssa.If); ok {
-					gd = &engine.Guard{If: iff, Branch: pp.Succs[0] == pred}
+		for _, w := range ways {
+			a, b := engine.Unwrap(w.a), engine.Unwrap(w.b)
+			ordered := false
+			for _, gd := range w.conds {
+				kc := gd.Cmp()
+				call := isCallTo(kc.X, "(*math/big.Int).Cmp")
+				cst, isK := engine.ConstInt(kc.Y)
+				if call == nil || !isK {
+					continue
+				}
+				x, y := engine.Unwrap(call.Common().Args[0]), engine.Unwrap(call.Common().Args[1])
+				signs := cmpSigns(kc.Op, cst) // possible signs of x-y on this edge
+				switch {
+				case x == a && y == b: // a-b must be <= 0
+					ordered = ordered || (len(signs) > 0 && !signs[1])
+				case x == b && y == a: // b-a must be >= 0
+					ordered = ordered || (len(signs) > 0 && !signs[-1])
 				}
 			}
-			if gd == nil {
+			if !ordered {
 				okAll = false
-				detail = "edge without governing comparison"
-				continue
-			}
-			kc := gd.Cmp()
-			call := isCallTo(kc.X, "(*math/big.Int).Cmp")
-			cst, isK := engine.ConstInt(kc.Y)
-			if call == nil || !isK {
-				okAll = false
-				detail = "governing condition is not x.Cmp(y) ? const"
-				continue
-			}
-			x, y := call.Common().Args[0], call.Common().Args[1]
-			// set of signs of x-y allowed on this edge
-			greater, notGreater := true, true
-			for _, s := range []int64{-1, 0, 1} {
-				holds := false
-				switch kc.Op {
-				case token.EQL:
-					holds = s == cst
-				case token.NEQ:
-					holds = s != cst
-				case token.GTR:
-					holds = s > cst
-				case token.GEQ:
-					holds = s >= cst
-				case token.LSS:
-					holds = s < cst
-				case token.LEQ:
-					holds = s <= cst
-				}
-				if holds && s <= 0 {
-					greater = false
-				}
-				if holds && s > 0 {
-					notGreater = false
-				}
-			}
-			switch {
-			case greater: // x > y on this edge: results must be (y, x)
-				if a != y || b != x {
-					okAll = false
-					detail = "on the edge x > y the results are not (y, x)"
-				}
-			case notGreater: // x <= y: results (x, y)
-				if a != x || b != y {
-					okAll = false
-					detail = "on the edge x <= y the results are not (x, y)"
-				}
-			default:
-				okAll = false
-				detail = "comparison does not separate x > y from x <= y"
+				detail = "(" + engine.Describe(a) + ", " + engine.Describe(b) + ") is returned on a path without a comparison that puts the first below the second"
 			}
 		}
 		c.Check(okAll, "C13.R5", "DecomposePQ/ordered-result", r.Pos(), "the factors must be returned in ascending order: swap exactly when p > q %s", detail)
@@ -366,7 +366,10 @@ func c13R5(c *engine.Ctx) {
 			return engine.EdgesWhere(fn, func(k engine.Cmp) bool {
 				call := isCallTo(k.X, "(*math/big.Int).Cmp")
 				v, isK := engine.ConstInt(k.Y)
-				if call == nil || !isK || k.Op != token.EQL || v != sign {
+				if call == nil || !isK {
+					return false
+				}
+				if ss := cmpSigns(k.Op, v); len(ss) != 1 || !ss[int(sign)] {
 					return false
 				}
 				return call.Common().Args[0] == g && other(call.Common().Args[1])
